@@ -111,8 +111,17 @@ WriteContractObs(v, e, x, viaWrite) ==
                     /\ \A i \in DOMAIN clog : clog[i].old = PO.val[v][e] /\ clog[i].new = newv
                     /\ newTasks = (IF viaWrite THEN Len(coroW) ELSE 0) + Len(coroC)
                ELSE clog = <<>> /\ newTasks = (IF viaWrite THEN Len(coroW) ELSE 0)))
+\* C14: plain Read handlers run before a value is published: every publication of a vector shows, for each enabled element that
+\* has a plain Read handler, at least one invocation of it in the same operation (a defBLOB carries no value and reads nothing)
+ReadContractObs ==
+  \A i \in DOMAIN QO.pub : LET m == QO.pub[i] IN
+     (m.t = "set" \/ (m.t = "def" /\ D.vecs[m.v].kind # "blob")) =>
+        \A e \in DOMAIN D.vecs[m.v].elems : D.vecs[m.v].een[e] =>
+           \A k \in DOMAIN Hs(D, m.v, e, "R") : ~D.hs[Hs(D, m.v, e, "R")[k]].coro =>
+              \E j \in DOMAIN QO.hlog : QO.hlog[j].h = Hs(D, m.v, e, "R")[k] /\ QO.hlog[j].ev = "R"
 ContractOK ==
   /\ Ev.obs.wireok
+  /\ ReadContractObs
   /\ RulePreserved(D, PO, QO) /\ PubRuleOK(D, PO, QO)
   /\ (Ev.o = "assign" => AssignOnOK(D, PO, QO, Ev.v, Ev.e, Ev.x))
   /\ (Ev.o \in {"new", "get", "tick"} => ~QO.raised)
